@@ -249,7 +249,11 @@ class FilesystemOnionService(object):
             # released?!
             uploaded[0] = _await_descriptor_upload(config.tor_protocol, fhs, progress, await_all_uploads)
 
-        yield config.save()
+        try:
+            yield config.save()
+        except Exception:
+            _abandon_descriptor_wait(uploaded[0])
+            raise
         yield uploaded[0]
         return fhs
 
@@ -495,11 +499,12 @@ def _await_descriptor_upload(tor_protocol, onion, progress, await_all_uploads):
     # the first 'yield' should be the add_event_listener so that a
     # caller can do "d = _await_descriptor_upload()", then add the
     # service.
-    yield tor_protocol.add_event_listener('HS_DESC', hs_desc)
     try:
+        yield tor_protocol.add_event_listener('HS_DESC', hs_desc)
         yield uploaded
     except Exception:
-        # we are done listening on failure, too
+        # we are done listening on failure (or when the wait is
+        # abandoned, see _abandon_descriptor_wait), too
         yield tor_protocol.remove_event_listener('HS_DESC', hs_desc)
         raise
     yield tor_protocol.remove_event_listener('HS_DESC', hs_desc)
@@ -546,7 +551,32 @@ def _add_ephemeral_service(config, onion, progress, version, auth=None, await_al
     # listener gets added before we issue ADD_ONION
     assert version in (2, 3)
     uploaded_d = _await_descriptor_upload(config.tor_protocol, onion, progress, await_all_uploads)
+    try:
+        yield _issue_add_onion(config, onion, version, auth)
+    except Exception:
+        _abandon_descriptor_wait(uploaded_d)
+        raise
 
+    log.msg("{}: waiting for descriptor uploads.".format(onion.hostname))
+    yield uploaded_d
+
+
+def _abandon_descriptor_wait(uploaded_d):
+    """
+    Internal helper. The service was not created after all, so nobody
+    is going to wait for its descriptor: stop listening for HS_DESC.
+    """
+    if uploaded_d is not None:
+        uploaded_d.addErrback(lambda f: f.trap(defer.CancelledError))
+        uploaded_d.cancel()
+
+
+@defer.inlineCallbacks
+def _issue_add_onion(config, onion, version, auth):
+    """
+    Internal helper. Builds and sends the ADD_ONION command for the
+    given service and fills in what Tor answered.
+    """
     # we allow a key to be passed that *doestn'* start with
     # "RSA1024:" because having to escape the ":" for endpoint
     # string syntax (which uses ":" as delimeters) is annoying
@@ -630,9 +660,6 @@ def _add_ephemeral_service(config, onion, progress, version, auth=None, await_al
             if line.startswith("ClientAuth="):
                 name, blob = line[11:].split(':', 1)
                 onion._add_client(name, blob)
-
-    log.msg("{}: waiting for descriptor uploads.".format(onion.hostname))
-    yield uploaded_d
 
 
 class _AuthCommon(object):
@@ -1174,7 +1201,11 @@ class FilesystemAuthenticatedOnionService(object):
             # released?!
             uploaded[0] = _await_descriptor_upload(config.tor_protocol, fhs, progress, await_all_uploads)
 
-        yield config.save()
+        try:
+            yield config.save()
+        except Exception:
+            _abandon_descriptor_wait(uploaded[0])
+            raise
         yield uploaded[0]
         return fhs
 
